@@ -345,6 +345,8 @@ def typing_model(role_of):
     m.ext["np.quantile"] = pct
     for f in ("np.asarray", "np.array", "np.asfarray", "np.copy", "np.ravel"):
         m.ext[f] = keep
+    # a random subsample has the type of the sample (whether the draw is reproducible is C10's subject, not a typing matter)
+    m.ext["np.random.choice"] = lambda it, x, *a, **k: keep(it, x)
     m.ext["np.abs"] = lambda it, x, *a, **k: b_abs(x)
     m.ext["np.absolute"] = m.ext["np.abs"]
     m.ext["np.isnan"] = lambda it, x: TV("INV", 0, TV.of(x).arr, "bool")
@@ -747,7 +749,7 @@ def const_model():
     return m
 
 
-def check_constant(chk, prog, LOCATION, SCALE):
+def check_constant(chk, prog, LOCATION, SCALE, floor=11):
     chk.rule("constant-data", "each estimator, through its decorator, interpreted on the uniform vector (k, k, k) and on the single value (k): "
              "location -> k, scale -> 0; a library precondition violated by constant data is a finding")
     n = 0
@@ -801,7 +803,7 @@ def check_constant(chk, prog, LOCATION, SCALE):
         n += 1
         chk.decide(not problems, "constant-data", f"{name}: {'k' if name in LOCATION else '0'} on constant data (n = 3, 2, 1, one value among NaN); NaN for no data", f"{fi.qn}::constant data", fi.loc(),
                    "; ".join(problems), witness=dict(example=f"{name}([5, 5, 5])"), cells=6)
-    chk.floor("estimators evaluated on constant data", n, 11)
+    chk.floor("estimators evaluated on constant data", n, floor)
 
 
 def check(chk, prog, LOCATION, SCALE):
